@@ -150,7 +150,9 @@ def make_case(gen, rng):
     if kind.startswith("spreadsheet"):
         b = dict(b, sidecar={}, kinds={})
     blank_rows = []
-    if kind == "spreadsheet-xlsx" and len(b["rows"]) >= 3 and rng.random() < 0.5:
+    if kind == "spreadsheet-xlsx" and len(b["rows"]) >= 3 and rng.random() < 0.5 and \
+            not any(all(c in ("n/a", "") for c in r) for r in b["rows"]):
+        # (not when another row holds nothing either: written last it would be an empty trailing row, which is no row)
         # a completely empty worksheet row above other rows: it is a row of the file and counts in the row numbers
         k = rng.randrange(0, len(b["rows"]) - 1)
         b["rows"][k] = ["n/a"] * len(cols)
